@@ -43,7 +43,10 @@ def tr_params(p, kind, N):
 def run(c):
     N = c["N"]
     psf = asym_psf(c["psf_seed"])
-    R = REND[c["renderer"]]
+    if c["renderer"] == "hybrid8":       # the hybrid renderer with 8 of its 15 components in real space
+        R = lambda shape, P: REND["hybrid"](shape, P, num_pixel_render=8)      # noqa: E731
+    else:
+        R = REND[c["renderer"]]
     r = R((N, N), jnp.array(psf))
     rT = R((N, N), jnp.array(psf.T.copy()))
     rM = R((N, N), jnp.array(psf[:, ::-1].copy()))
